@@ -373,6 +373,11 @@ def main(argv=None):
     ap.add_argument("--replay")
     ap.add_argument("--runs", type=int)
     ap.add_argument("--seed", type=int)
+    argv = sys.argv[1:] if argv is None else argv
+    if argv and argv[0] == "selftest":
+        from . import selftest
+
+        return selftest.main(argv[1:])
     args = ap.parse_args(argv)
     if args.replay:
         return replay_main(args.replay)
